@@ -608,6 +608,8 @@ pub fn noncontractive_alias_cycle(fs: &Fs) -> Option<(String, String)> {
     let mut aliases: BTreeMap<(String, String), Vec<DirectRef>> = BTreeMap::new();
     let mut imports: BTreeMap<(String, String), (String, String)> = BTreeMap::new();
     let mut defaults: BTreeMap<String, String> = BTreeMap::new();
+    // (file, exported name) -> (specifier, original name) for `export { a as b } from "./x"`
+    let mut reexports: BTreeMap<(String, String), (String, String)> = BTreeMap::new();
     for (path, content) in fs {
         let cm: Lrc<SourceMap> = Default::default();
         let fm = cm.new_source_file(FileName::Custom(path.to_string()).into(), content.to_string());
@@ -648,6 +650,22 @@ pub fn noncontractive_alias_cycle(fs: &Fs) -> Option<(String, String)> {
                         defaults.entry(path.clone()).or_insert(i.sym.to_string());
                     }
                 }
+                ModuleItem::ModuleDecl(ModuleDecl::ExportNamed(n)) if n.src.is_some() => {
+                    let spec = n.src.as_ref().unwrap().value.to_string_lossy().to_string();
+                    for s in &n.specifiers {
+                        if let ExportSpecifier::Named(x) = s {
+                            let orig = match &x.orig {
+                                ModuleExportName::Ident(o) => o.sym.to_string(),
+                                _ => continue,
+                            };
+                            let exported = match &x.exported {
+                                Some(ModuleExportName::Ident(e)) => e.sym.to_string(),
+                                _ => orig.clone(),
+                            };
+                            reexports.insert((path.clone(), exported), (spec.clone(), orig));
+                        }
+                    }
+                }
                 ModuleItem::ModuleDecl(ModuleDecl::ExportNamed(n)) if n.src.is_none() => {
                     for s in &n.specifiers {
                         if let ExportSpecifier::Named(x) = s {
@@ -668,9 +686,21 @@ pub fn noncontractive_alias_cycle(fs: &Fs) -> Option<(String, String)> {
         }
     }
     let in_file = |g: &str, name: &str| -> Option<(String, String)> {
-        let name = if name == "default" { defaults.get(g)?.clone() } else { name.to_string() };
-        if aliases.contains_key(&(g.to_string(), name.clone())) {
-            Some((g.to_string(), name))
+        // follow `export { x as y } from` links (bounded), then `default` -> the local it names
+        let (mut g, mut name) = (g.to_string(), name.to_string());
+        for _ in 0..8 {
+            match reexports.get(&(g.clone(), name.clone())) {
+                Some((spec, orig)) => {
+                    let h = crate::host::resolve_in(fs, &g, spec)?;
+                    g = h;
+                    name = orig.clone();
+                }
+                None => break,
+            }
+        }
+        let name = if name == "default" { defaults.get(&g)?.clone() } else { name };
+        if aliases.contains_key(&(g.clone(), name.clone())) {
+            Some((g, name))
         } else {
             None
         }
